@@ -1,5 +1,15 @@
 package main
 
+// C10 stream: storage failures fail closed.
+//
+// For every flow on both routers and for several REQUEST VARIANTS of that flow (credential placement, PKCE, scopes,
+// opaque / JWT access tokens, hints, response modes, storage capabilities) the journal length n of the fault-free request
+// is learned; the request is then repeated from a fresh provider
+//   * with the k-th storage call failing, for every k = 1 … n+1 and every error kind (plain error, context.DeadlineExceeded,
+//     an oidc.Error), and
+//   * with each NAMED storage method of the journal failing on every call.
+// The monitor (Spec/C10.lean) judges the OBSERVED response.
+
 import (
 	"bufio"
 	"context"
@@ -7,6 +17,7 @@ import (
 	"fmt"
 	"net/http"
 	"net/url"
+	"sort"
 	"strings"
 	"time"
 
@@ -23,35 +34,137 @@ func init() { streams["C10"] = c10Stream }
 var c10Flows = []string{"authorize", "authorize-unregistered", "callback-code", "callback-implicit", "token-code", "token-refresh", "token-cc", "token-jwt-bearer",
 	"token-exchange", "device-authorization", "token-device", "userinfo", "introspect", "revoke", "end-session", "keys"}
 
+// credential placements per flow (how the client names / authenticates itself)
+var c10Creds = map[string][]string{
+	"token-code":           {"basic", "post", "id-only", "assertion", "basic+same", "basic+other"},
+	"token-refresh":        {"basic", "post", "id-only", "assertion", "basic+same", "basic+other"},
+	"token-cc":             {"basic", "post", "basic+same", "basic+other"},
+	"token-exchange":       {"basic", "post", "basic+same", "basic+other"},
+	"device-authorization": {"basic", "id-only", "basic+same", "basic+other", "assertion", "pub-basic+same", "post"},
+	"token-device":         {"basic", "id-only", "basic+same", "pub-basic+same", "assertion", "basic+other", "post"},
+	"introspect":           {"basic", "assertion", "basic+same", "basic+other", "post"},
+	"revoke":               {"basic", "post", "id-only", "assertion", "basic+same", "basic+other"},
+}
+
+type c10Var struct {
+	idx                                 int
+	cred                                string
+	pkce, jwtAT, uiFromReq, termFromReq bool
+	teVerifier, hint, formToken         bool
+	scopes, mode, respType              string
+	subType, reqType                    int
+}
+
+func (v c10Var) desc() string {
+	b := func(x bool, s string) string {
+		if x {
+			return "+" + s
+		}
+		return ""
+	}
+	return v.cred + b(v.pkce, "pkce") + b(v.jwtAT, "jwt") + b(v.hint, "hint") + b(v.formToken, "form") + "/" + strings.ReplaceAll(v.scopes, " ", ",")
+}
+
+var c10ScopeSets = []string{"openid offline_access", "openid", "openid profile email offline_access", "openid profile", "profile offline_access"}
+
+func c10Variant(flow string, v int, r *hx.Rand) c10Var {
+	creds := c10Creds[flow]
+	if creds == nil {
+		creds = []string{"basic", "id-only", "post", "assertion"} // the client whose tokens / auth request the flow uses
+	}
+	x := c10Var{idx: v, cred: creds[v%len(creds)]}
+	x.jwtAT = (v/2)%2 == 1
+	x.pkce = (v/3)%2 == 0
+	x.scopes = c10ScopeSets[(v+v/5)%len(c10ScopeSets)]
+	x.uiFromReq = v%4 >= 2
+	x.termFromReq = (v/2)%3 == 1
+	x.teVerifier = (v/3)%2 == 1
+	x.hint = v%3 != 2
+	x.formToken = (v/4)%2 == 1
+	x.mode = []string{"", "query", "fragment", "form_post"}[(v+v/4)%4]
+	x.respType = []string{"id_token token", "id_token"}[(v/2)%2]
+	x.subType = v % 3
+	x.reqType = (v + v/3) % 3
+	// beyond the systematic part the seed decides
+	if v >= 8 && r.Chance(50) {
+		x.scopes = hx.Pick(r, c10ScopeSets...)
+		x.mode = hx.Pick(r, "", "query", "fragment", "form_post")
+	}
+	return x
+}
+
+const c10Verifier = "verifier-EEEEEEEEEEEEEEEEEEEEEEEEEEEEEEEEEEEEEEEEEEE"
+
+// c10Client: the client a credential placement stands for
+func c10Client(cls []*flowClient, cred string) *flowClient {
+	switch cred {
+	case "post":
+		return cls[3]
+	case "id-only", "pub-basic+same":
+		return cls[2]
+	case "assertion":
+		return cls[4]
+	}
+	return cls[0]
+}
+
+// c10Auth: the request credentials for a placement; extra form values name the client a second time
+func c10Auth(sy *symbols, fc *flowClient, cred string) (opbed.Auth, url.Values) {
+	switch cred {
+	case "basic+same":
+		return opbed.Auth{Kind: "basic", ID: fc.c.ID, Secret: fc.c.Secret}, url.Values{"client_id": {fc.c.ID}}
+	case "basic+other":
+		return opbed.Auth{Kind: "basic", ID: fc.c.ID, Secret: fc.c.Secret}, url.Values{"client_id": {"pub"}}
+	case "pub-basic+same":
+		// a public client that sends `Authorization: Basic base64(client_id:)` and the client_id form field
+		return opbed.Auth{Kind: "basic", ID: fc.c.ID, Secret: ""}, url.Values{"client_id": {fc.c.ID}}
+	}
+	return ownAuth(sy, fc), nil
+}
+
+func merged(a, b url.Values) url.Values {
+	out := url.Values{}
+	for k, v := range a {
+		out[k] = v
+	}
+	for k, v := range b {
+		out[k] = v
+	}
+	return out
+}
+
 // c10Prepare builds a fresh bed, runs the fault-free prefix of a flow and returns the request under test
-func c10Prepare(r *hx.Rand, sy *symbols, router, flow string, variant int) (*opbed.Bed, *http.Request, string) {
-	caps := refstore.Caps{CC: true, TE: true, Device: true, UserinfoFromReq: variant%2 == 1}
+func c10Prepare(r *hx.Rand, sy *symbols, router, flow string, vi int) (*opbed.Bed, *http.Request, string, c10Var) {
+	v := c10Variant(flow, vi, r)
+	caps := refstore.Caps{CC: true, TE: true, Device: true, UserinfoFromReq: v.uiFromReq, TermFromReq: v.termFromReq, TEVerifier: v.teVerifier}
 	bed, err := opbed.New(opbed.Config{Router: router, S256: true, Post: true, PrivateKeyJWT: true, Refresh: true, Caps: caps})
 	if err != nil {
 		panic(err)
 	}
 	cls := flowClients()
-	for _, fc := range cls {
-		bed.Store.AddClient(fc.c)
+	fc := c10Client(cls, v.cred)
+	for _, c := range cls {
+		c.c.Grants = append(c.c.Grants, oidc.GrantTypeDeviceCode, oidc.GrantTypeTokenExchange)
+		if v.jwtAT {
+			c.c.TokenType = op.AccessTokenTypeJWT
+		}
+		bed.Store.AddClient(c.c)
 	}
 	bed.Store.AddUser("user1", nil)
-	fc := cls[0] // web
-	if variant%3 == 1 {
-		fc = cls[2] // pub
-	}
-	if variant%4 == 3 {
-		fc.c.TokenType = op.AccessTokenTypeJWT
-	}
-	scopes := hx.Pick(r, "openid offline_access", "openid profile email offline_access", "openid")
+	scopes := v.scopes
 	if flow == "token-refresh" || flow == "token-exchange" {
 		scopes = "openid offline_access"
 	}
 	redirect := fc.c.Redirects[0]
+	usePKCE := v.pkce || fc.c.Auth == oidc.AuthMethodNone
 	authorizeQ := func(respType string) url.Values {
 		q := url.Values{"client_id": {fc.c.ID}, "redirect_uri": {redirect}, "response_type": {respType}, "scope": {scopes}, "state": {"st8"}, "nonce": {"n8"}}
-		if fc.c.Auth == oidc.AuthMethodNone {
-			q.Set("code_challenge", oidc.NewSHACodeChallenge("verifier-EEEEEEEEEEEEEEEEEEEEEEEEEEEEEEEEEEEEEEEEEEE"))
+		if usePKCE {
+			q.Set("code_challenge", oidc.NewSHACodeChallenge(c10Verifier))
 			q.Set("code_challenge_method", "S256")
+		}
+		if v.mode != "" {
+			q.Set("response_mode", v.mode)
 		}
 		return q
 	}
@@ -64,95 +177,192 @@ func c10Prepare(r *hx.Rand, sy *symbols, router, flow string, variant int) (*opb
 		bed.Store.CompleteAuthRequest(id, "user1")
 		return id
 	}
-	tokens := func() *opbed.Resp {
+	codeOf := func(cb *opbed.Resp) string {
+		if cb.Loc != nil {
+			if c := cb.Loc.Query().Get("code"); c != "" {
+				return c
+			}
+			if f, err := url.ParseQuery(cb.Loc.Fragment); err == nil && f.Get("code") != "" {
+				return f.Get("code")
+			}
+		}
+		// form_post
+		body := string(cb.Body)
+		if i := strings.Index(body, `name="code" value="`); i >= 0 {
+			rest := body[i+len(`name="code" value="`):]
+			if j := strings.Index(rest, `"`); j >= 0 {
+				return rest[:j]
+			}
+		}
+		return ""
+	}
+	codeForm := func() url.Values {
 		id := login("code")
 		cb := bed.Do(bed.Get("/authorize/callback", url.Values{"id": {id}}, ""))
-		code := ""
-		if cb.Loc != nil {
-			code = cb.Loc.Query().Get("code")
+		f := url.Values{"grant_type": {"authorization_code"}, "code": {codeOf(cb)}, "redirect_uri": {redirect}}
+		if usePKCE {
+			f.Set("code_verifier", c10Verifier)
 		}
-		f := url.Values{"grant_type": {"authorization_code"}, "code": {code}, "redirect_uri": {redirect}}
-		if fc.c.Auth == oidc.AuthMethodNone {
-			f.Set("code_verifier", "verifier-EEEEEEEEEEEEEEEEEEEEEEEEEEEEEEEEEEEEEEEEEEE")
-		}
-		return bed.Do(bed.Form("/oauth/token", f, ownAuth(sy, fc)))
+		return f
 	}
+	tokens := func() *opbed.Resp {
+		return bed.Do(bed.Form("/oauth/token", codeForm(), ownAuth(sy, fc)))
+	}
+	auth, extra := c10Auth(sy, fc, v.cred)
 	switch flow {
-	case "authorize":
-		return bed, bed.Get("/authorize", authorizeQ("code"), ""), redirect
-	case "authorize-unregistered":
-		// the redirect_uri is NOT registered: whatever fails, the answer must never be a redirect to it
-		q := authorizeQ("code")
-		q.Set("redirect_uri", "https://attacker.example/steal")
-		return bed, bed.Get("/authorize", q, ""), redirect
+	case "authorize", "authorize-unregistered":
+		q := authorizeQ(hx.Pick(r, "code", "code", "id_token token"))
+		if v.hint {
+			q.Set("id_token_hint", tokens().Str("id_token"))
+			q.Set("prompt", "login")
+		}
+		if flow == "authorize-unregistered" {
+			// the redirect_uri is NOT registered: whatever fails, the answer must never be a redirect to it
+			q.Set("redirect_uri", "https://attacker.example/steal")
+		}
+		if v.formToken {
+			return bed, bed.Form("/authorize", q, opbed.Auth{Kind: "none"}), redirect, v
+		}
+		return bed, bed.Get("/authorize", q, ""), redirect, v
 	case "callback-code":
-		return bed, bed.Get("/authorize/callback", url.Values{"id": {login("code")}}, ""), redirect
+		return bed, bed.Get("/authorize/callback", url.Values{"id": {login("code")}}, ""), redirect, v
 	case "callback-implicit":
 		fc = cls[0]
 		redirect = fc.c.Redirects[0]
-		return bed, bed.Get("/authorize/callback", url.Values{"id": {login(hx.Pick(r, "id_token token", "id_token"))}}, ""), redirect
+		return bed, bed.Get("/authorize/callback", url.Values{"id": {login(v.respType)}}, ""), redirect, v
 	case "token-code":
-		id := login("code")
-		cb := bed.Do(bed.Get("/authorize/callback", url.Values{"id": {id}}, ""))
-		code := ""
-		if cb.Loc != nil {
-			code = cb.Loc.Query().Get("code")
-		}
-		f := url.Values{"grant_type": {"authorization_code"}, "code": {code}, "redirect_uri": {redirect}}
-		if fc.c.Auth == oidc.AuthMethodNone {
-			f.Set("code_verifier", "verifier-EEEEEEEEEEEEEEEEEEEEEEEEEEEEEEEEEEEEEEEEEEE")
-		}
-		return bed, bed.Form("/oauth/token", f, ownAuth(sy, fc)), redirect
+		return bed, bed.Form("/oauth/token", merged(codeForm(), extra), auth), redirect, v
 	case "token-refresh":
 		tr := tokens()
-		return bed, bed.Form("/oauth/token", url.Values{"grant_type": {"refresh_token"}, "refresh_token": {tr.Str("refresh_token")}}, ownAuth(sy, fc)), redirect
+		f := url.Values{"grant_type": {"refresh_token"}, "refresh_token": {tr.Str("refresh_token")}}
+		if v.hint {
+			f.Set("scope", "openid")
+		}
+		return bed, bed.Form("/oauth/token", merged(f, extra), auth), redirect, v
 	case "token-cc":
-		return bed, bed.Form("/oauth/token", url.Values{"grant_type": {"client_credentials"}, "scope": {"openid"}}, ownAuth(sy, cls[0])), redirect
+		return bed, bed.Form("/oauth/token", merged(url.Values{"grant_type": {"client_credentials"}, "scope": {strings.ReplaceAll(scopes, " offline_access", "")}}, extra), auth), redirect, v
 	case "token-jwt-bearer":
 		now := time.Now().Unix()
 		l := hx.NewLine("x")
 		a := assertion(sy, l, cls[4].key, cls[4].kid, "pk", "pk", []string{opbed.Issuer}, now-5, now+300)
-		return bed, bed.Form("/oauth/token", url.Values{"grant_type": {string(oidc.GrantTypeBearer)}, "assertion": {a}, "scope": {"openid"}}, opbed.Auth{Kind: "none"}), redirect
+		return bed, bed.Form("/oauth/token", url.Values{"grant_type": {string(oidc.GrantTypeBearer)}, "assertion": {a}, "scope": {scopes}}, opbed.Auth{Kind: "none"}), redirect, v
 	case "token-exchange":
 		tr := tokens()
-		sub, typ := tr.Str("refresh_token"), string(oidc.RefreshTokenType)
-		if variant%2 == 0 {
-			sub, typ = tr.Str("access_token"), string(oidc.AccessTokenType)
+		sub, typ := tr.Str("access_token"), string(oidc.AccessTokenType)
+		switch v.subType {
+		case 1:
+			sub, typ = tr.Str("refresh_token"), string(oidc.RefreshTokenType)
+		case 2:
+			sub, typ = tr.Str("id_token"), string(oidc.IDTokenType)
 		}
 		f := url.Values{"grant_type": {string(oidc.GrantTypeTokenExchange)}, "subject_token": {sub}, "subject_token_type": {typ},
-			"requested_token_type": {hx.Pick(r, string(oidc.AccessTokenType), string(oidc.RefreshTokenType), string(oidc.IDTokenType))}}
-		return bed, bed.Form("/oauth/token", f, ownAuth(sy, cls[0])), redirect
+			"requested_token_type": {[]string{string(oidc.AccessTokenType), string(oidc.RefreshTokenType), string(oidc.IDTokenType)}[v.reqType]}}
+		if v.hint {
+			f.Set("actor_token", tr.Str("access_token"))
+			f.Set("actor_token_type", string(oidc.AccessTokenType))
+		}
+		return bed, bed.Form("/oauth/token", merged(f, extra), auth), redirect, v
 	case "device-authorization":
-		return bed, bed.Form("/device_authorization", url.Values{"scope": {"openid"}}, ownAuth(sy, fc)), redirect
+		return bed, bed.Form("/device_authorization", merged(url.Values{"scope": {scopes}}, extra), auth), redirect, v
 	case "token-device":
-		da := bed.Do(bed.Form("/device_authorization", url.Values{"scope": {"openid offline_access"}}, ownAuth(sy, fc)))
+		da := bed.Do(bed.Form("/device_authorization", url.Values{"scope": {scopes}}, ownAuth(sy, fc)))
 		if uc := da.Str("user_code"); uc != "" {
 			bed.Store.ApproveDevice(uc, "user1")
 		}
-		return bed, bed.Form("/oauth/token", url.Values{"grant_type": {string(oidc.GrantTypeDeviceCode)}, "device_code": {da.Str("device_code")}}, ownAuth(sy, fc)), redirect
+		f := url.Values{"grant_type": {string(oidc.GrantTypeDeviceCode)}, "device_code": {da.Str("device_code")}}
+		return bed, bed.Form("/oauth/token", merged(f, extra), auth), redirect, v
 	case "userinfo":
-		return bed, bed.Get("/userinfo", nil, tokens().Str("access_token")), redirect
+		at := tokens().Str("access_token")
+		if v.formToken {
+			return bed, bed.Form("/userinfo", url.Values{"access_token": {at}}, opbed.Auth{Kind: "none"}), redirect, v
+		}
+		return bed, bed.Get("/userinfo", nil, at), redirect, v
 	case "introspect":
-		return bed, bed.Form("/oauth/introspect", url.Values{"token": {tokens().Str("access_token")}}, ownAuth(sy, cls[0])), redirect
+		tr := tokens()
+		tok := tr.Str("access_token")
+		if v.subType == 1 {
+			tok = tr.Str("refresh_token")
+		}
+		// the resource server introspecting is the client of the placement; the token belongs to it as well
+		return bed, bed.Form("/oauth/introspect", merged(url.Values{"token": {tok}}, extra), auth), redirect, v
 	case "revoke":
 		tr := tokens()
-		return bed, bed.Form("/revoke", url.Values{"token": {hx.Pick(r, tr.Str("access_token"), tr.Str("refresh_token"))}}, ownAuth(sy, fc)), redirect
+		f := url.Values{"token": {tr.Str("access_token")}}
+		switch v.subType {
+		case 1:
+			f.Set("token", tr.Str("refresh_token"))
+			if v.hint {
+				f.Set("token_type_hint", "refresh_token")
+			}
+		case 2:
+			f.Set("token_type_hint", "access_token")
+		}
+		return bed, bed.Form("/revoke", merged(f, extra), auth), redirect, v
 	case "end-session":
 		tr := tokens()
-		q := url.Values{"id_token_hint": {tr.Str("id_token")}, "state": {"bye"}}
-		if variant%2 == 0 {
-			q.Set("post_logout_redirect_uri", "https://rp.example/logged-out")
+		q := url.Values{"state": {"bye"}}
+		if v.hint {
+			q.Set("id_token_hint", tr.Str("id_token"))
+		} else {
+			q.Set("client_id", fc.c.ID)
 		}
-		return bed, bed.Get("/end_session", q, ""), redirect
+		if v.formToken && len(fc.c.PostLogout) > 0 {
+			q.Set("post_logout_redirect_uri", fc.c.PostLogout[0])
+		}
+		return bed, bed.Get("/end_session", q, ""), redirect, v
 	default: // keys
-		return bed, bed.Get("/keys", nil, ""), redirect
+		return bed, bed.Get("/keys", nil, ""), redirect, v
 	}
 }
 
+func journalMethod(entry string) string {
+	if i := strings.IndexByte(entry, '('); i >= 0 {
+		return entry[:i]
+	}
+	return entry
+}
+
+// c10Observe renders what the response to the faulted request contains
+func c10Observe(l *hx.Line, flow, redirect string, resp *opbed.Resp) {
+	l.I("o.status", int64(resp.Status)).B("o.panic", resp.Panicked)
+	body := string(resp.Body)
+	hasTok := resp.Str("access_token") != "" || resp.Str("refresh_token") != "" || resp.Str("id_token") != ""
+	hasCode := false
+	hasRedirect := resp.Loc != nil && resp.Status >= 300 && resp.Status < 400
+	locErr, locReg := false, true
+	if hasRedirect {
+		vals := resp.Loc.Query()
+		if frag, err := url.ParseQuery(resp.Loc.Fragment); err == nil {
+			for k2, v2 := range frag {
+				vals[k2] = v2
+			}
+		}
+		locErr = vals.Get("error") != ""
+		hasCode = vals.Get("code") != ""
+		if vals.Get("access_token") != "" || vals.Get("id_token") != "" {
+			hasTok = true
+		}
+		target := *resp.Loc
+		target.RawQuery, target.Fragment, target.RawFragment = "", "", ""
+		locReg = target.String() == redirect || strings.HasPrefix(resp.Loc.Path, "/login")
+	}
+	if strings.Contains(body, `name="code"`) {
+		hasCode = true
+	}
+	if strings.Contains(body, `name="access_token"`) || strings.Contains(body, `name="id_token"`) {
+		hasTok = true
+	}
+	_, hasSub := resp.JSON["sub"]
+	active, _ := resp.JSON["active"].(bool)
+	dcode := resp.Str("device_code") != "" || resp.Str("user_code") != ""
+	l.B("o.redirect", hasRedirect).B("o.locerr", locErr).B("o.locreg", locReg).B("o.code", hasCode || dcode).B("o.token", hasTok).
+		B("o.claims", hasSub && (flow == "userinfo" || flow == "introspect")).B("o.active", active).S("o.err", resp.OAuthError())
+}
+
 func c10Stream(r *hx.Rand, tier string, n int, w *bufio.Writer) map[string]int {
-	variants := 2
+	variants := 8
 	if tier == "thorough" {
-		variants = 12
+		variants = 32
 	}
 	if n > 0 {
 		variants = n
@@ -164,62 +374,76 @@ func c10Stream(r *hx.Rand, tier string, n int, w *bufio.Writer) map[string]int {
 		name string
 		err  error
 	}{{"plain", errors.New("injected storage failure")}, {"deadline", context.DeadlineExceeded}, {"oidc", oidc.ErrServerError().WithDescription("injected")}}
+	base := r.U64() % 1000000
+	emit := func(l *hx.Line, flow, redirect string, resp *opbed.Resp, hit bool, failed string, v c10Var) {
+		l.B("hit", hit)
+		if hit {
+			l.S("failed", failed)
+			stats["fault-hit"]++
+			stats["hit-"+flow+"-"+journalMethod(failed)]++
+		}
+		c10Observe(l, flow, redirect, resp)
+		fmt.Fprintln(w, l.String())
+		stats["cases"]++
+		caseNo++
+	}
 	for v := 0; v < variants; v++ {
 		for _, router := range []string{"provider", "legacy"} {
 			for _, flow := range c10Flows {
-				// learn the journal length of the fault-free request
-				bed, req, _ := c10Prepare(hx.NewRand(uint64(1000*v+7)), sy, router, flow, v)
-				base := bed.Do(req)
-				nCalls := len(base.Journal)
-				stats["journal-"+flow] = nCalls
+				seed := base + uint64(1000*v+7)
+				// learn the journal of the fault-free request
+				bed, req, _, vd := c10Prepare(hx.NewRand(seed), sy, router, flow, v)
+				baseResp := bed.Do(req)
+				nCalls := len(baseResp.Journal)
+				stats["variant-"+flow+"-"+vd.cred]++
+				if nCalls > stats["journal-max-"+flow] {
+					stats["journal-max-"+flow] = nCalls
+				}
+				if baseResp.Status < 400 && !baseResp.Panicked {
+					stats["faultfree-ok-"+flow]++
+				}
+				line := func(mode string, k int, kind string) *hx.Line {
+					return hx.NewLine("C10").I("case", int64(caseNo)).S("flow", flow).S("router", router).S("cred", vd.cred).S("variant", vd.desc()).I("v", int64(v)).
+						S("mode", mode).I("k", int64(k)).I("n", int64(nCalls)).S("kind", kind)
+				}
 				for k := 1; k <= nCalls+1; k++ {
 					for _, kind := range kinds {
-						bed, req, redirect := c10Prepare(hx.NewRand(uint64(1000*v+7)), sy, router, flow, v)
+						bed, req, redirect, _ := c10Prepare(hx.NewRand(seed), sy, router, flow, v)
 						bed.Store.FailAt(k, kind.err)
 						resp := bed.Do(req)
 						bed.Store.ClearFaults()
 						hit := k <= len(resp.Journal) // the k-th call of this request was really made (and failed)
-						l := hx.NewLine("C10").I("case", int64(caseNo)).S("flow", flow).S("router", router).I("k", int64(k)).I("n", int64(nCalls)).S("kind", kind.name).B("hit", hit)
-						caseNo++
+						failed := ""
 						if hit {
-							l.S("failed", resp.Journal[k-1])
+							failed = resp.Journal[k-1]
 						}
-						l.I("o.status", int64(resp.Status)).B("o.panic", resp.Panicked)
-						body := string(resp.Body)
-						hasTok := resp.Str("access_token") != "" || resp.Str("refresh_token") != "" || resp.Str("id_token") != ""
-						hasCode := false
-						hasRedirect := resp.Loc != nil && resp.Status >= 300 && resp.Status < 400
-						locErr, locReg := false, true
-						if hasRedirect {
-							vals := resp.Loc.Query()
-							if frag, err := url.ParseQuery(resp.Loc.Fragment); err == nil {
-								for k2, v2 := range frag {
-									vals[k2] = v2
-								}
-							}
-							locErr = vals.Get("error") != ""
-							hasCode = vals.Get("code") != ""
-							if vals.Get("access_token") != "" || vals.Get("id_token") != "" {
-								hasTok = true
-							}
-							target := *resp.Loc
-							target.RawQuery, target.Fragment = "", ""
-							locReg = target.String() == redirect || strings.HasPrefix(resp.Loc.Path, "/login")
-						}
-						if strings.Contains(body, `name="code"`) || strings.Contains(body, `name="access_token"`) || strings.Contains(body, `name="id_token"`) {
-							hasTok = true
-						}
-						_, hasSub := resp.JSON["sub"]
-						active, _ := resp.JSON["active"].(bool)
-						dcode := resp.Str("device_code") != ""
-						l.B("o.redirect", hasRedirect).B("o.locerr", locErr).B("o.locreg", locReg).B("o.code", hasCode || dcode).B("o.token", hasTok).
-							B("o.claims", hasSub && (flow == "userinfo" || flow == "introspect")).B("o.active", active).S("o.err", resp.OAuthError())
-						fmt.Fprintln(w, l.String())
-						stats["cases"]++
-						if hit {
-							stats["fault-hit"]++
+						emit(line("index", k, kind.name), flow, redirect, resp, hit, failed, vd)
+					}
+				}
+				// each named storage method of the journal failing on every call
+				seen := map[string]bool{}
+				var methods []string
+				for _, e := range baseResp.Journal {
+					if m := journalMethod(e); !seen[m] {
+						seen[m] = true
+						methods = append(methods, m)
+					}
+				}
+				sort.Strings(methods)
+				for i, m := range methods {
+					kind := kinds[(i+v)%len(kinds)]
+					bed, req, redirect, _ := c10Prepare(hx.NewRand(seed), sy, router, flow, v)
+					bed.Store.FailMethod(m, kind.err)
+					resp := bed.Do(req)
+					bed.Store.ClearFaults()
+					hit, failed := false, ""
+					for _, e := range resp.Journal {
+						if journalMethod(e) == m {
+							hit, failed = true, e
+							break
 						}
 					}
+					emit(line("method:"+m, 0, kind.name), flow, redirect, resp, hit, failed, vd)
 				}
 			}
 		}
